@@ -1436,6 +1436,7 @@ class Generator:
             names = [x.rsplit(' ', 1)[-1].lstrip('*') for x in ps]
             rt = self.T.c(f.rec)
             self.helper_protos[nm] = f"{rt} {nm}({', '.join(ps) or 'void'})"
+            self.helper_specs = getattr(self, 'helper_specs', {}); self.helper_specs[nm] = self.spec_for(nm)
             self.helper_bodies[nm] = f"{{\n    {rt} __o;\n    {f.cname}({', '.join(['&__o'] + names)});\n    return __o;\n}}"
         return nm
 
@@ -1446,6 +1447,7 @@ class Generator:
             names = [x.rsplit(' ', 1)[-1].lstrip('*') for x in ps]
             rt = self.T.c(f.rec)
             self.helper_protos[nm] = f"{rt} *{nm}({', '.join(ps) or 'void'})"
+            self.helper_specs = getattr(self, 'helper_specs', {}); self.helper_specs[nm] = self.spec_for(nm)
             self.helper_bodies[nm] = (f"{{\n    {rt} *__o = ({rt} *)malloc(sizeof({rt}));\n    __CPROVER_assume(__o != 0);\n"
                                       f"    {f.cname}({', '.join(['__o'] + names)});\n    return __o;\n}}")
         return nm
@@ -1483,7 +1485,9 @@ class Generator:
                 y = x
                 while y.get('kind') in ('MaterializeTemporaryExpr', 'ExprWithCleanups', 'CXXBindTemporaryExpr'): y = y['inner'][0]
                 v = em.e(y)
-                ct = self.T.c(self.T.strip_cv(pt))
+                ct = self.T.c(pt)
+                ct = re.sub(r'^const (?!.*\*)', '', ct)       # drop top-level const of scalars only
+                ct = re.sub(r'\*\s*const$', '*', ct)
                 a.append(f"(({ct})({v}))" if not prq else v)
         em.note_call(f.cname)
         return f"{self.new_wrapper(f)}({', '.join(a)})"
@@ -1753,6 +1757,8 @@ def emit_types(gen):
     return out
 
 MODELS_INCLUDE = '#include "models.h"'
+MODEL_FUNCTIONS = ['verif_memcpy', 'vec_u8_make_n', 'vec_u8_copy', 'vec_u8_resize', 'vec_u8_resize_val', 'vec_u8_assign_copy', 'vec_frames_push_back',
+                   'sv_find', 'sv_from_cstr', 'str_from_int', 'map_slot_index', 'map_slot_erase']
 
 def run(ast_dir, spec_paths, excluded_path, out_c, out_map, out_report, layouts_path=None):
     ctx = Ctx()
@@ -1844,6 +1850,10 @@ def run(ast_dir, spec_paths, excluded_path, out_c, out_map, out_report, layouts_
     rep = {'translated': gen.report['translated'], 'skipped': gen.report['skipped'], 'excluded': gen.report['excluded'],
            'spec_without_target': missing, 'n_records': len(ctx.records), 'n_enums': len(ctx.enums),
            'cnames': {f.cname: {'q': f.q, 'type': f.type_str, 'has_body': f.body is not None} for f in ctx.funcs.values() if f.cname}}
+    for nm in gen.helper_protos: rep['cnames'][nm] = {'q': nm + ' (generated helper)', 'type': gen.helper_protos[nm], 'has_body': True}
+    for nm in MODEL_FUNCTIONS: rep['cnames'][nm] = {'q': nm + ' (std model, assumed contract)', 'type': '', 'has_body': False}
+    for nm in ctx.vec_structs:
+        for op in ('push_back', 'pop_back', 'clear', 'move', 'assign_move', 'copy'): rep['cnames'][f"{nm}_{op}"] = {'q': f"{nm}_{op} (std model, assumed contract)", 'type': '', 'has_body': False}
     json.dump(rep, open(out_report, 'w'), indent=1)
     return rep
 
